@@ -6,6 +6,98 @@ extern "C" {
     fn waitpid(pid: i32, status: *mut i32, options: i32) -> i32;
     fn _exit(code: i32) -> !;
     fn alarm(seconds: u32) -> u32;
+    fn pipe(fds: *mut i32) -> i32;
+    fn read(fd: i32, buf: *mut u8, n: usize) -> isize;
+    fn write(fd: i32, buf: *const u8, n: usize) -> isize;
+    fn close(fd: i32) -> i32;
+    fn dup(fd: i32) -> i32;
+    fn dup2(a: i32, b: i32) -> i32;
+    fn open(path: *const u8, flags: i32, ...) -> i32;
+}
+
+/// Move the protocol channel away from fd 1 (scripts may print): returns a writer on a
+/// duplicate of the original stdout; fd 0 and fd 1 now are /dev/null.
+pub fn private_stdout() -> std::fs::File {
+    use std::os::unix::io::FromRawFd;
+    unsafe {
+        let keep = dup(1);
+        let null_w = open(b"/dev/null\0".as_ptr(), 1);
+        dup2(null_w, 1);
+        let null_r = open(b"/dev/null\0".as_ptr(), 0);
+        dup2(null_r, 0);
+        std::fs::File::from_raw_fd(keep)
+    }
+}
+
+pub fn set_alarm(seconds: u32) {
+    unsafe {
+        alarm(seconds);
+    }
+}
+
+/// Run `work(progress)` in a forked copy of this (single-threaded) process; `work` calls
+/// `progress(i)` just before it starts item `i`.  Returns how the worker ended and the last
+/// item it reported.
+pub fn worker(work: impl FnOnce(&mut dyn FnMut(u32))) -> (Forked, Option<u32>) {
+    let _ = std::io::stdout().flush();
+    unsafe {
+        let mut fds = [0i32; 2];
+        if pipe(fds.as_mut_ptr()) != 0 {
+            panic!("pipe failed");
+        }
+        let pid = fork();
+        if pid < 0 {
+            panic!("fork failed");
+        }
+        if pid == 0 {
+            close(fds[0]);
+            let wfd = fds[1];
+            let mut progress = |i: u32| {
+                let b = i.to_le_bytes();
+                write(wfd, b.as_ptr(), 4);
+            };
+            work(&mut progress);
+            let _ = std::io::stdout().flush();
+            _exit(0);
+        }
+        close(fds[1]);
+        let mut last = None;
+        let mut buf = [0u8; 4];
+        loop {
+            let mut got = 0usize;
+            while got < 4 {
+                let r = read(fds[0], buf.as_mut_ptr().add(got), 4 - got);
+                if r <= 0 {
+                    break;
+                }
+                got += r as usize;
+            }
+            if got < 4 {
+                break;
+            }
+            last = Some(u32::from_le_bytes(buf));
+        }
+        close(fds[0]);
+        let mut status: i32 = 0;
+        loop {
+            let r = waitpid(pid, &mut status, 0);
+            if r == pid {
+                break;
+            }
+        }
+        let sig = status & 0x7f;
+        let st = if sig == 0 {
+            let code = (status >> 8) & 0xff;
+            if code == 0 {
+                Forked::Done
+            } else {
+                Forked::Exit(code)
+            }
+        } else {
+            Forked::Signal(sig)
+        };
+        (st, last)
+    }
 }
 
 #[derive(Debug, Clone, PartialEq)]
